@@ -209,6 +209,16 @@ func runTwinStream(seed int64, n int, out, backendSpec string) *RunReport {
 					}
 				}
 			}
+			// constant additions (they draw nothing from the PRNG): a limit lifted again by a later negative one, direction 0,
+			// a negated non-comparison leaf to the left of a range on another indexed field
+			fixed = append(fixed,
+				QSpec{Coll: "t0", Steps: []QStep{{Kind: "sort", Opts: []SortOpt{{"a", 1}, {"_id", 1}}}, {Kind: "skip", N: 1}, {Kind: "limit", N: 2}, {Kind: "limit", N: -1}}},
+				QSpec{Coll: "t0", Steps: []QStep{{Kind: "limit", N: 3}, {Kind: "limit", N: -5}}},
+				QSpec{Coll: "t0", Steps: []QStep{{Kind: "sort", Opts: []SortOpt{{"a", 0}}}, {Kind: "skip", N: 1}, {Kind: "limit", N: 2}}},
+				QSpec{Coll: "t0", Steps: []QStep{{Kind: "sort", Opts: []SortOpt{{"x", 0}}}}},
+				QSpec{Coll: "t0", Steps: []QStep{{Kind: "where", C: &Crit{Kind: "and", A: &Crit{Kind: "notexists", Field: "s"}, B: &Crit{Kind: "cmp", Op: "OGt", Field: "xy", Val: Operand{Lit: int(1)}}}}}},
+				QSpec{Coll: "t0", Steps: []QStep{{Kind: "where", C: &Crit{Kind: "and", A: &Crit{Kind: "not", A: &Crit{Kind: "like", Field: "s", Pat: "a"}}, B: &Crit{Kind: "cmp", Op: "OLtEq", Field: "a", Val: Operand{Lit: int(4)}}}}}},
+				QSpec{Coll: "t0", Steps: []QStep{{Kind: "where", C: &Crit{Kind: "and", A: &Crit{Kind: "not", A: &Crit{Kind: "in", Field: "b", Vals: []Operand{{Lit: int(1)}}}}, B: &Crit{Kind: "cmp", Op: "OGtEq", Field: "x", Val: Operand{Lit: int(2)}}}}}})
 			for k := 0; k < 25+len(fixed); k++ {
 				var q0 QSpec
 				if k < len(fixed) {
